@@ -203,8 +203,14 @@ class KHex(_Recorder):
             self.segs.append((a, r))
 
     def tobinstr(self, start=None, end=None, pad=None, size=None):
+        if size is not None:
+            raise Unsupported("tobinstr with size")
+        if start is None:
+            start = self.minaddr()
+        if end is None:
+            end = self.maxaddr()
         if start is None or end is None:
-            raise Unsupported("tobinstr without explicit bounds")
+            return Rope()  # intelhex: no data and no bound -> empty string
         s, e = term(start), term(end)
         if self.it.ctx.branch(e < s):
             raise PyRaise(ValueError("tobinstr: end < start"))
@@ -218,5 +224,46 @@ def make_hex_model(files=None):
     def model(it, args, kwargs):
         src = args[0] if args else kwargs.get("source")
         return KHex(it, src, files)
+
+    return model
+
+
+# ------------------------------------------------------------------------------------------------ struct
+
+
+class KStruct(_Recorder):
+    """struct.Struct(fmt) for little/big-endian unsigned fields B H I Q with symbolic values."""
+
+    SIZES = {"B": 1, "H": 2, "I": 4, "L": 4, "Q": 8}
+
+    def __init__(self, it, fmt):
+        self.it, self.format = it, fmt
+        if not fmt or fmt[0] not in "<>":
+            raise Unsupported("struct format without explicit byte order")
+        self.order = "little" if fmt[0] == "<" else "big"
+        self.fields = []
+        for ch in fmt[1:]:
+            if ch not in self.SIZES:
+                raise Unsupported("struct format character " + ch)
+            self.fields.append(self.SIZES[ch])
+        self.size = sum(self.fields)
+
+    def pack(self, *vals):
+        import struct as _st
+
+        if len(vals) != len(self.fields):
+            raise PyRaise(_st.error(f"pack expected {len(self.fields)} items for packing (got {len(vals)})"))
+        r = Rope()
+        for w, v in zip(self.fields, vals):
+            t = term(v)
+            if self.it.ctx.branch(z3.Or(t < 0, t >= 256**w)):
+                raise PyRaise(_st.error("argument out of range"))
+            r = r.concat(Rope([Seg("int", z3.simplify(t), w, self.order)]))
+        return r
+
+
+def make_struct_model():
+    def model(it, args, kwargs):
+        return KStruct(it, args[0])
 
     return model
